@@ -21,7 +21,7 @@ COMPONENTS_STUB = ["UDP socket (SimSocket) incl. error queue", "scripted peers (
 ASSUMPTIONS = ["message IDs are assigned at submission, which gives an independent handle on submission order",
                "an exchange ends when an ACK/RST with its MID from its remote is delivered, when its retransmissions are "
                "exhausted, or when a transport error for the remote is delivered"]
-EXPECTED_PROBES = ["backlog_depth_1", "backlog_depth_3", "release_after_ack", "release_after_rst", "flush_by_giveup",
+EXPECTED_PROBES = ["server_originated_con", "backlog_depth_1", "backlog_depth_3", "release_after_ack", "release_after_rst", "flush_by_giveup",
                    "flush_by_icmp", "non_while_blocked", "other_remote_while_blocked"]
 
 REACTIONS = ["ack", "ack_sep", "piggy", "rst", "silent"]
@@ -40,6 +40,13 @@ def gen(r, tier):
                     "react": r.weighted([(5, "ack"), (2, "ack_sep"), (2, "piggy"), (2, "rst"), (2, "silent")]),
                     "delay": r.choice([0.005, 0.005, 0.05, 0.3, 1.0, 2.5]),
                     "mr": r.choice([0, 1, 2, 4]), "ato": r.choice([0.2, 0.5, 2.0])})
+    if r.chance(0.4):
+        # the peer also asks the endpoint for a slow resource: the separate (confirmable) response competes for the
+        # same NSTART slot as the endpoint's own requests to that peer
+        for _ in range(r.randint(1, 3)):
+            ops.append({"op": "srv", "t": round(r.uniform(0, max(0.5, t)), 4), "peer": 0 if r.chance(0.6) else r.randrange(npeers),
+                        "d": r.choice([0.15, 0.3, 1.0]), "react": r.weighted([(5, "ack"), (2, "rst"), (2, "silent")]),
+                        "delay": r.choice([0.005, 0.05, 0.3, 1.0]), "mr": r.choice([0, 1, 2]), "ato": r.choice([0.2, 0.5])})
     if r.chance(0.3):
         for _ in range(r.randint(1, 2)):
             ops.append({"op": "icmp", "t": round(r.uniform(0, t + 3), 4), "peer": r.randrange(npeers),
@@ -76,6 +83,19 @@ class Peer(ScriptedEndpoint):
         if msg is None:
             return
         if msg["type"] == rc.CON and msg["code"] >= 64:
+            # a separate response to one of this peer's own requests (token 0x5A, tag)
+            tok = msg["token"]
+            if len(tok) == 2 and tok[0] == 0x5A:
+                key = ("srv", tok[1], msg["mid"])
+                if key in self.seen:
+                    return
+                self.seen.add(key)
+                op = self.plan.get(tok[1])
+                if op is None or op["react"] == "silent":
+                    return
+                typ = rc.RST if op["react"] == "rst" else rc.ACK
+                self.send(src, msg={"type": typ, "code": 0, "mid": msg["mid"], "token": b"", "options": [], "payload": b""},
+                          fate=["deliver", op["delay"]])
             return
         if not (1 <= msg["code"] < 32):
             return
@@ -119,13 +139,33 @@ def execute(sim, scn):
         p = scn["senderr"]
         sim.gens["senderr"] = lambda r: (r.choice([101, 1]) if r.chance(p) else 0)
 
-    client = loop.run_until_complete(sim.client(common.CLIENT_IP))
+    import asyncio
+    import aiocoap.resource as resource
+
+    submitted = []  # (t, tag, peer, con)
+
+    class SlowRes(resource.Resource):
+        async def render_get(self, request):
+            tag = request.token[1]
+            op = scn["ops"][tag]
+            await asyncio.sleep(op["d"])
+            # handing the response over is the submission of a confirmable message towards that peer
+            submitted.append((loop.now, tag, op["peer"], True))
+            sim.log("app", "srv-response", tag)
+            return Message(payload=b"slow%d" % tag,
+                           transport_tuning=common.make_tuning({"ACK_TIMEOUT": op["ato"], "MAX_RETRANSMIT": op["mr"]}))
+
+    async def setup():
+        site = resource.Site()
+        site.add_resource(["slow"], SlowRes())
+        return await sim.server(site, common.CLIENT_IP)
+
+    client = loop.run_until_complete(setup())
     me = sim.local_addr(client)
     plans = [dict() for _ in range(scn["npeers"])]
     tracker = common.Tracker(sim)
-    submitted = []  # (t, tag, peer, con)
     for tag, op in enumerate(scn["ops"]):
-        if op["op"] == "req":
+        if op["op"] in ("req", "srv"):
             plans[op["peer"]][tag] = op
     peers = [Peer(sim, common.PEER_IPS[i], 5683, plans[i]) for i in range(scn["npeers"])]
 
@@ -140,6 +180,12 @@ def execute(sim, scn):
     for tag, op in enumerate(scn["ops"]):
         if op["op"] == "req":
             loop.at(op["t"], submit, tag, op)
+        elif op["op"] == "srv":
+            if tag < 256:
+                sim.probe("server_originated_con")
+                peers[op["peer"]].send_at(op["t"], me, msg={
+                    "type": rc.CON, "code": rc.GET, "mid": 0x6000 + tag, "token": bytes([0x5A, tag]),
+                    "options": [(rc.URI_PATH, b"slow")], "payload": b""}, fate=["deliver", 0.005])
         else:
             def do_icmp(op=op):
                 icmps.append((loop.now, op["peer"]))
@@ -153,11 +199,20 @@ def execute(sim, scn):
     first_tx = {}
     all_tx = {}
     uniform = [d for d in sim.draws["mm"].log if d[0] == "uniform"]
+    def tag_of(m):
+        """scenario op a message of the endpoint belongs to: own requests by path, separate responses by token"""
+        if 1 <= m["code"] < 32:
+            return int(rc.opt1(m, rc.URI_PATH)[1:])
+        if m["code"] >= 64 and m["type"] == rc.CON and len(m["token"]) == 2 and m["token"][0] == 0x5A:
+            return m["token"][1]
+        return None
+
     for e in wire:
-        if e["src"] != me or e["msg"] is None or not (1 <= e["msg"]["code"] < 32):
+        if e["src"] != me or e["msg"] is None:
             continue
-        path = rc.opt1(e["msg"], rc.URI_PATH)
-        tag = int(path[1:])
+        tag = tag_of(e["msg"])
+        if tag is None:
+            continue
         all_tx.setdefault(tag, []).append(e)
         if tag not in first_tx:
             first_tx[tag] = e
@@ -186,8 +241,8 @@ def execute(sim, scn):
         seen_mids.add(key)
         d = uniform[di] if di < len(uniform) else None
         di += 1
-        if ev[1] == "tx" and 1 <= m["code"] < 32:
-            draw_of[int(rc.opt1(m, rc.URI_PATH)[1:])] = d
+        if ev[1] == "tx" and tag_of(m) is not None:
+            draw_of[tag_of(m)] = d
     senderrs = [(ev[0], ev[4]) for ev in sim.events if ev[1] == "net" and ev[2] == "senderr"]  # (t, dst str)
     # positions in the event log give the order of things that happen in the same instant
     txpos = {}
@@ -275,9 +330,18 @@ def execute(sim, scn):
                     break
         # (d) none forgotten
         for (s, tag) in cons:
-            rec = tracker.results[tag]
             if tag in first_tx:
                 continue
+            if scn["ops"][tag]["op"] == "srv":
+                # a held-back separate response has no request object to fail; it may only vanish together with
+                # everything else for that peer (give-up of the exchange ahead, transport error)
+                causes = [x for x in ex if x["how"] in ("giveup", "flush") and x["end"] >= s - TOL] + \
+                         [f for f in flushes if f >= s - TOL]
+                if not causes:
+                    sim.violation("C14/held-back-message-forgotten", {"remote": fmt(R), "tag": tag, "submitted": s,
+                                                                      "what": "separate response"})
+                continue
+            rec = tracker.results[tag]
             if not rec["done"]:
                 sim.violation("C14/held-back-message-forgotten", {"remote": fmt(R), "tag": tag, "submitted": s})
             elif rec["outcome"] != "error" or not isinstance(rec["exception"], error.NetworkError):
